@@ -235,7 +235,7 @@ def rule_b(ctx):
         m = callee_method(t) or callee_def(t).split("::")[-1]
         key = "%s@%s" % (m, fn_key(b))
         if ends(callee_def(t), "add_author_css"):
-            ctx.check(ends(b.id, "dom_extract::dom_to_stylesheet"), "C18-B", key, t["span"], b.id,
+            ctx.check(ends(b.root if b.kind == "Closure" else b.id, "dom_extract::dom_to_stylesheet"), "C18-B", key, t["span"], b.id,
                       "author rules may only be added from the document's style elements")
             continue
         if ends(b.id, "dom_to_parsed_style"):
